@@ -257,6 +257,7 @@ func runC07(c *kit.Ctx) {
 	batchFlagLoweredOnlyWithAnError(c)
 	lookupFailuresReachTheirSlots(c)
 	batchRetriesUntilNothingIsLeft(c)
+	lookupFailuresAreFinal(c)
 
 	// ---- R1 ---------------------------------------------------------------
 	c.StartRule("R1", "every store into a result slot is indexed by the original position of the call it describes", 6)
